@@ -3,6 +3,7 @@
 package main
 
 import (
+	"sync"
 	"encoding/base64"
 	"encoding/json"
 	"fmt"
@@ -115,6 +116,22 @@ func runC13(c *ctx) {
 			if xfh != "" {
 				hdr.Set("X-Forwarded-Host", xfh)
 			}
+			// now and then the provider refuses the pushed authorization request: the login must then FAIL (error path), never fall back to sending
+			// the parameters - let alone the client credentials - through the browser
+			parFault := v.par && ep == "login" && r.chance(1, 8)
+			s.idp.mu.Lock()
+			if parFault {
+				st := pick(r, []int{400, 401, 429})
+				s.idp.gate = func(kind string, form url.Values) *idpFault {
+					if kind == "par" {
+						return &idpFault{status: st, body: `{"error":"invalid_request","error_description":"refused"}`}
+					}
+					return nil
+				}
+			} else {
+				s.idp.gate = nil
+			}
+			s.idp.mu.Unlock()
 			nPar, nTok := len(s.idp.parCalls), s.idp.callCount()
 			b := newBrowser()
 			req, ok := safeRequest("GET", target)
@@ -211,10 +228,62 @@ func runC13(c *ctx) {
 				"p_locale", hx(params.Get("ui_locales")), "p_prompt", hx(params.Get("prompt")), "p_maxage", hx(params.Get("max_age")), "p_client", hx(params.Get("client_id")),
 				"p_postlogout", hx(params.Get("post_logout_redirect_uri")),
 				"c_state", hx(lc.State), "c_nonce", hx(lc.Nonce), "c_redirect", hx(lc.RedirectURI), "c_acr", hx(lc.Acr), "c_verlen", len(lc.CodeVerifier), "c_statelen", len(lc.State), "c_noncelen", len(lc.Nonce),
-				"parcalled", len(parBody) > 0, "par_secret", parBody.Get("client_secret") != "", "par_assertion", parBody.Get("client_assertion") != "", "assertok", assertOK, "assertwhy", hx(assertWhy),
+				"parfault", parFault, "parcalled", len(parBody) > 0, "par_secret", parBody.Get("client_secret") != "", "par_assertion", parBody.Get("client_assertion") != "", "assertok", assertOK, "assertwhy", hx(assertWhy),
 				"leak", hx(leak), "authzendpoint", hx(s.idp.srv.URL+"/authorize"), "endsession", hx(s.idp.srv.URL+"/endsession"))
 		}
 		s.close()
+	}
+	// concurrent login visits (16 at a time on one replica): the per-attempt secrets must stay pairwise distinct and every visit must succeed -
+	// a random source that is shared without synchronisation hands the same bytes to two visits, or breaks
+	{
+		s := newSut(sutOpts{ingresses: []string{"http://wonderwall"}, sidRequired: true, secure: false})
+		rp := s.replica("A")
+		per := 120
+		if c.thorough() {
+			per = 3000
+		}
+		var mu sync.Mutex
+		var wg sync.WaitGroup
+		failed := 0
+		for g := 0; g < 16; g++ {
+			wg.Add(1)
+			go func() {
+				defer wg.Done()
+				for i := 0; i < per; i++ {
+					b := newBrowser()
+					st := 0
+					var lc openid.LoginCookie
+					func() {
+						defer func() {
+							if recover() != nil {
+								st = 599
+							}
+						}()
+						resp := b.do(rp, "GET", "http://wonderwall/oauth2/login", http.Header{"Sec-Fetch-Mode": {"navigate"}, "Sec-Fetch-Dest": {"document"}})
+						st = resp.Status
+						if jc := b.get(cookie.Login); jc != nil {
+							if raw, err := base64.RawURLEncoding.DecodeString(jc.Value); err == nil {
+								if pt, err := s.crypter.Decrypt(raw); err == nil {
+									json.Unmarshal(pt, &lc)
+								}
+							}
+						}
+					}()
+					mu.Lock()
+					if st != 302 || lc.State == "" {
+						failed++
+					} else {
+						note("state", lc.State)
+						note("nonce", lc.Nonce)
+						note("verifier", lc.CodeVerifier)
+					}
+					mu.Unlock()
+				}
+			}()
+		}
+		wg.Wait()
+		s.close()
+		c.emit("burst13", "visits", 16*per, "failed", failed)
 	}
 	c.emit("fresh13", "total", total, "dups", dups, "minlen", minLen)
 }
